@@ -8,6 +8,7 @@ CONSTANTS
   FixSessErr = FALSE
   FixRet = FALSE
   FixAdd = FALSE
-  Depth = 16
+  Depth = 19
   Loop = FALSE
+  AddGate = TRUE
 CHECK_DEADLOCK FALSE
